@@ -69,6 +69,7 @@ static long vp_sink_rd_howmuch; static long vp_sink_wr_atmost; static size_t vp_
 static int vp_sink_rd_calls, vp_sink_wr_calls;
 static long vp_sink_force = -2;                  /* harness: != -2 -> the next transfer result is this value */
 static int vp_sink_errno_set[5] = { EAGAIN, EINTR, ECONNRESET, ECONNREFUSED, EPIPE };
+static int vp_sink_force_errno;              /* harness: != 0 -> errno of a forced failure (otherwise solver-chosen from the set) */
 static int vp_sink_last_errno;               /* errno of the last failed transfer */
 
 static int vp_sink_idx(const struct evbuffer *b)
@@ -90,7 +91,7 @@ static long vp_sink_io_result(size_t count)
 	if (vp_sink_force != -2) {
 		long f = vp_sink_force;
 		vp_sink_force = -2;
-		if (f == -1) { errno = vp_sink_last_errno = vp_sink_errno_set[vp_range(0, 4)]; return -1; }
+		if (f == -1) { errno = vp_sink_last_errno = vp_sink_force_errno ? vp_sink_force_errno : vp_sink_errno_set[vp_range(0, 4)]; return -1; }
 		__CPROVER_assume(f >= 0 && (size_t)f <= count);
 		return f;
 	}
